@@ -16,11 +16,15 @@ import (
 	"github.com/btcsuite/btcd/rpcclient"
 	"github.com/btcsuite/btcd/wire/v2"
 	"github.com/lightninglabs/neutrino"
+	"github.com/lightninglabs/neutrino/banman"
 	"github.com/lightninglabs/neutrino/headerfs"
 )
 
 // RaceWorkload runs the scenarios; everything in it is bounded by deadlines.
 func RaceWorkload(seed int64, budget int) {
+	// bans made through the public API lapse at once (before any client goroutine exists): every later
+	// IsBanned for such an address walks the expiry path of the ban store next to the other lookups
+	neutrino.BanDuration = time.Nanosecond
 	rng := rand.New(rand.NewSource(seed*7919 + 18))
 	grow := func(n int) Event { return Event{Kind: "grow", A: n} }
 	sync := Event{Kind: "waitsync"}
@@ -77,6 +81,20 @@ func raceScenario(rng *rand.Rand, sc Scenario) {
 	})
 	user(func(*rand.Rand) { cs.Peers(); cs.ConnectedCount() })
 	user(func(*rand.Rand) { cs.IsBanned("10.0.0.1:18444") })
+	// banning concurrently with ban lookups: addresses no simulated peer uses, bans that have lapsed by the time
+	// they are looked up (BanDuration above), several goroutines asking about the same addresses
+	banAddr := func(r *rand.Rand) string {
+		return []string{"203.0.113.7:8333", "203.0.113.8:8333", "[2001:db8::7]:8333"}[r.Intn(3)]
+	}
+	// (every such call is a write transaction on the database the header stores use as well: a few dozen per
+	// second, so that the sync itself is not slowed down; the lookup right after the ban finds it lapsed and
+	// reaps it while the lookups of the user above are under way)
+	user(func(r *rand.Rand) {
+		a := banAddr(r)
+		cs.BanPeer(a, banman.ExceededBanThreshold)
+		cs.IsBanned(a)
+		time.Sleep(15 * time.Millisecond)
+	})
 	user(func(r *rand.Rand) {
 		b := pick(r)
 		if bs, err := cs.BestBlock(); err != nil || bs.Height < b.Height+3 {
